@@ -585,7 +585,9 @@ func randSession(r *c.Rng, side string) Case {
 // ---------------------------------------------------------------- run
 
 func runSession(o *c.Out, k Case) {
+	k.LogLevel = setLogLevel(pickLevel(o, k.LogLevel))
 	execSession(&k)
+	o.Count(k.Side + ":log-level=" + k.LogLevel)
 	// non-trivial: some producer that carries headers fires in two transactions
 	// and some transaction combines two actions that are not no-ops
 	fires := map[int]int{}
